@@ -75,7 +75,25 @@ TrConsulted ==
          viols' = IF bad THEN Append(viols, [line |-> l, kind |-> "db-consulted-for-nonglobal-or-disabled"]) ELSE viols
     /\ UNCHANGED <<vars, drifts, zoned>>
 
-TraceSpec == TraceInit /\ [][TrLabel \/ TrLabelSet \/ TrConsulted]_<<vars, tvars>>
+\* ---- scrapes concurrent with the first registration of a client (schedules of LocationLabelRace on the real collectors) ----
+\*   {"ev":"ScrapeSet","enabled":b,"mode":"eq"|"subset","want":[{"cls":c,"db":d,"cc":country}..],"got":[label..]}
+\*      got = the location labels of ALL series of tunnel_time_seconds_per_location that this scrape exported;
+\*      want = the final labels of the clients whose registration has begun (subset: a scrape that overlapped a
+\*      registration; eq: a sequential scrape after it).  Property layer (LocationLabelRace!NoUnsetLocation /
+\*      OneLocationPerClient on what the real scrape exported): with lookup enabled the empty location never appears,
+\*      and a client is never reported under a label other than the one of its class / database behaviour.
+TrScrapeSet ==
+    /\ l <= Len(Trace) /\ Trace[l].ev = "ScrapeSet" /\ l' = l + 1
+    /\ LET e == Trace[l]
+           want == {WantLabel(w) : w \in SeqSet(e.want)}
+           got == SeqSet(e.got)
+           pv == IF e.enabled /\ "" \in got THEN "empty-location-with-lookup-enabled"
+                 ELSE IF ~(got \subseteq want) \/ (e.mode = "eq" /\ want # got) THEN "series-label-mismatch"
+                 ELSE "" IN
+         viols' = IF pv # "" THEN Append(viols, [line |-> l, kind |-> pv]) ELSE viols
+    /\ UNCHANGED <<vars, drifts, zoned>>
+
+TraceSpec == TraceInit /\ [][TrLabel \/ TrLabelSet \/ TrConsulted \/ TrScrapeSet]_<<vars, tvars>>
 Report == (l = Len(Trace) + 1) =>
             PrintT(<<"RESULT", ToJson([lines |-> l - 1, viols |-> viols, drifts |-> drifts])>>)
 TraceAccepted == TLCGet("stats").diameter - 1 = Len(Trace)
